@@ -132,7 +132,8 @@ def gen_history(rng, pools):
             mols[n] += rng.sample(pools[n][:7], 3)    # homologs
     for n in names:
         objs.append((len(objs), n))
-        ops.append({'op': 'load', 'obj': objs[-1][0], 'db': n})
+        ops.append({'op': 'load', 'obj': objs[-1][0], 'db': n,
+                    'how': rng.choice(['name', 'name', 'relpath'])})
     length = rng.randint(2, 40)
     while len(ops) < length + len(names):
         r = rng.random()
@@ -185,7 +186,8 @@ def gen_history(rng, pools):
         else:
             n = rng.choice(list(set(names)))
             objs.append((len(objs), n))
-            ops.append({'op': 'load', 'obj': objs[-1][0], 'db': n})
+            ops.append({'op': 'load', 'obj': objs[-1][0], 'db': n,
+                        'how': rng.choice(['name', 'relpath'])})
     return ops
 
 
@@ -233,7 +235,18 @@ def run_history(ctx, hid, ops, table):
         before = all_states()
         kind = op['op']
         if kind == 'load':
-            o = observe(libs.fresh, op['db'])
+            if op.get('how') == 'relpath':
+                # './library.yaml' from inside the database's directory: the
+                # same spelling names another database a few steps later
+                cwd = os.getcwd()
+                try:
+                    os.chdir(os.path.join(libs.data_dir(), op['db']))
+                    o = observe(libs.fresh, os.path.join('.', 'library.yaml'))
+                finally:
+                    os.chdir(cwd)
+                ctx.count('loads_by_relative_path')
+            else:
+                o = observe(libs.fresh, op['db'])
             ctx.evals()
             if 'exc' in o:
                 ctx.violation('load raised %s inside a history' % o['exc'],
